@@ -39,9 +39,11 @@ func VerifFeedStarted(p *Plugin, topic string, partition int32, records []*kgo.R
 // VerifClient returns the client Start created.
 func VerifClient(p *Plugin) *kgo.Client { return p.client }
 
-// VerifShutdown ends the poll loop and closes the client without the final synchronous
-// offset commit of Stop (there is no group coordinator to talk to).
+// VerifShutdown is Stop without the final synchronous offset commit (there is no group
+// coordinator to talk to): close the client, then cancel the poll loop, in Stop's order.
+// (Cancelling first can leave a poll registered that nobody releases with AllowRebalance:
+// the consume loop returns on ctx.Err() right after PollRecords, and Close then waits forever.)
 func VerifShutdown(p *Plugin) {
-	p.cancel()
 	p.client.Close()
+	p.cancel()
 }
